@@ -1,5 +1,6 @@
 """C11 – time formatting tokens render the exact calendar fields of the instant (DESIGN §4 C11)."""
 import calendar
+import os
 import datetime as pydt
 
 from harness import core
@@ -12,13 +13,28 @@ DRIVER = "C11"
 RULE = ("(spec, instant) pairs: specs built from documented tokens / literals / bracket escapes / '!UTC' "
         "(structured stream, judged by an oracle computed from the datetime object's own API) and random "
         "strings over the token alphabet (adversarial stream, implementation vs Lean model); non-trivial = "
-        "spec contains >= 2 tokens or an escape or the !UTC suffix; distinct by (spec, instant)")
+        "spec contains >= 2 tokens or an escape or the !UTC suffix; distinct by (spec, instant).  Round 5: histories "
+        "of 20-90 calls over pools of up to 64 specs on one process-wide memoiser (each call judged by the oracle and "
+        "by the Lean history model), suffix look-alike literals, zoneinfo zones incl. LMT offsets with seconds, the "
+        "handler path '{time:<spec>}', aware_now() under several TZ settings")
 TRUSTED = [
     "Py/Calendar.lean (proleptic Gregorian arithmetic) is modelled, validated against datetime for sampled/all days",
     "strftime is delegated: for specs containing '%' only the delegation itself is checked",
-    "_format_timezone is transcribed by hand over integer microseconds (the code uses float seconds)",
+    "_format_timezone: regenerated from the source over exact integer microseconds (the code uses float seconds: "
+    "the reading of float //, %, is_integer and %09.06f for |offset| < 24 h is trusted, tied by the correspondence)",
+    "functools.lru_cache is modelled as a table with an arbitrary replacement policy (only its key is read from the source)",
 ]
 ASSUMPTIONS = ["C locale month/day names", "fixed-offset zones (datetime.timezone); named zones only via tzname()"]
+
+try:
+    import zoneinfo
+    _avail = zoneinfo.available_timezones()
+except Exception:  # noqa  (no tz database on this machine: the zoneinfo part of the zone stream is skipped)
+    zoneinfo, _avail = None, set()
+ZONES = [z for z in ["Europe/Paris", "America/New_York", "Australia/Lord_Howe", "Asia/Kolkata", "Africa/Monrovia",
+                     "Europe/Amsterdam", "Pacific/Apia", "America/St_Johns", "Asia/Kathmandu", "Europe/Dublin",
+                     "America/Caracas", "Pacific/Chatham", "Antarctica/Troll"] if z in _avail]
+ZONES_CACHE = {}
 
 EPOCH = pydt.datetime(1970, 1, 1, tzinfo=pydt.timezone.utc)
 US = pydt.timedelta(microseconds=1)
@@ -166,6 +182,27 @@ def model_name(fields):
     return dt.tzname() or ""
 
 
+LOOKALIKES = ["UTC", "!UTC", "UT", "C", "U", "!", "!UT", "!utc", "utc", "UTC!", "TC", "!!UTC", " !UTC", "!UTC!UTC", "!UTC]", "[!UTC"]
+
+
+def finish_spec(pieces, utc):
+    """spec text of a piece list, and the reading the documentation gives it: a spec that ends with the four
+    characters '!UTC' carries the suffix (once) - also when they come from the generator's last literal; everything
+    before them is the body (look-alikes in the middle, a doubled suffix, ... are literal text)."""
+    merged = []
+    for k, t in pieces:
+        if k == "lit" and merged and merged[-1][0] == "lit":
+            merged[-1] = ("lit", merged[-1][1] + t)
+        else:
+            merged.append((k, t))
+    spec = "".join(t if k != "esc" else "[" + t + "]" for k, t in merged) + ("!UTC" if utc else "")
+    if not utc and spec.endswith("!UTC") and merged and merged[-1][0] == "lit" and merged[-1][1].endswith("!UTC"):
+        k, t = merged[-1]
+        merged = merged[:-1] + ([(k, t[:-4])] if t[:-4] else [])
+        utc = True
+    return spec, merged, utc
+
+
 def gen_structured(rng):
     """list of pieces (kind, text); adjacency of same-letter tokens is avoided so that the greedy
     scanner cannot re-cut the spec differently from the generator's intent"""
@@ -181,7 +218,7 @@ def gen_structured(rng):
             pieces.append(("tok", tok))
             prev_tok = tok
         elif k < 8:
-            lit = rng.choice(LITERALS[:13])
+            lit = rng.choice(LITERALS[:13]) if not rng.chance(22) else rng.choice(LOOKALIKES)
             pieces.append(("lit", lit))
             prev_tok = None
         else:
@@ -238,9 +275,38 @@ def recut(pieces):
     return out
 
 
+JOURNAL = []        # every format() call of this process, in order: whatever state the implementation keeps between
+META = {}           # calls (a memoiser, a remembered zone, ...) is a function of this list
+
+
+def ser_call(spec, dt, zone_ids):
+    base = [spec, dt.year, dt.month, dt.day, dt.hour, dt.minute, dt.second, dt.microsecond]
+    tz = dt.tzinfo
+    if isinstance(tz, RuleTz):
+        zid = zone_ids.setdefault(id(tz), len(zone_ids))
+        return base + [{"rule": [tz.std_us, tz.dst_us, sorted(tz.months)], "id": zid, "fold": dt.fold}]
+    if zoneinfo is not None and isinstance(tz, zoneinfo.ZoneInfo):
+        return base + [{"zoneinfo": tz.key, "fold": dt.fold}]
+    args = tz.__getinitargs__()
+    return base + [{"offset": args[0] // US, "name": args[1] if len(args) > 1 else None}]
+
+
+def deser_call(c, zones):
+    from loguru._datetime import datetime as ldt
+    z = c[8]
+    if "rule" in z:
+        tz = zones.setdefault(("rule", z["id"]), RuleTz(*z["rule"]))
+    elif "zoneinfo" in z:
+        tz = zones.setdefault(("zi", z["zoneinfo"]), zoneinfo.ZoneInfo(z["zoneinfo"]))
+    elif z["name"] is None:
+        tz = pydt.timezone(pydt.timedelta(microseconds=z["offset"]))
+    else:
+        tz = pydt.timezone(pydt.timedelta(microseconds=z["offset"]), z["name"])
+    return c[0], ldt(*c[1:8], tzinfo=tz, fold=z.get("fold", 0))
+
+
 def impl_format(dt, spec):
-    import loguru._datetime as ld
-    ld._compile_format.cache_clear() if ld._compile_format.cache_info().currsize > 20000 else None
+    JOURNAL.append((spec, dt))
     try:
         return ("ok", format(dt, spec))
     except OverflowError:
@@ -274,8 +340,313 @@ def f1_applies(fields):
     return off < 0 and off % (60 * 10**6) != 0
 
 
+def clear_cache():
+    """start a history from an empty memoiser when the implementation has one that can be emptied"""
+    import loguru._datetime as ld
+    cc = getattr(getattr(ld, "_compile_format", None), "cache_clear", None)
+    if callable(cc):
+        cc()
+    JOURNAL.append(("", None))                 # a clearing is part of the history of the process
+
+
+def call_token(spec, fields):
+    y, mo, d, h, mi, s, us, off, name = fields
+    return "%s,%d,%d,%d,%d,%d,%d,%d,%d,%s" % (enc(spec), y, mo, d, h, mi, s, us, off, enc(name or ""))
+
+
+def resolve_hist(tok, dt):
+    parts = tok.split(":")
+    if parts[0] == "ok":
+        return ("ok", dec(parts[1]))
+    if parts[0] == "strftime":
+        try:
+            d2 = dt.astimezone(pydt.timezone.utc) if parts[1] == "1" else dt
+            return ("ok", d2.strftime(dec(parts[2])))
+        except OverflowError:
+            return ("skip", "overflow")
+    if parts[0] == "err":
+        return ("err", parts[1])
+    return ("bad", tok)
+
+
+def gen_pool_entry(rng):
+    """-> (spec, pieces or None, utc): pieces (already re-cut) when the oracle can judge the spec"""
+    kind = rng.below(12)
+    if kind < 7:
+        pieces, utc = gen_structured(rng)
+        spec, pieces, utc = finish_spec(pieces, utc)
+        if spec == "" or "%" in spec or "SSSSSSS" in spec or not pieces or spec == DEFAULT_SPEC:
+            return ("HH:mm" + ("!UTC" if utc else ""), [("tok", "HH"), ("lit", ":"), ("tok", "mm")], utc)
+        return (spec, recut(pieces), utc)
+    if kind < 9:
+        return (gen_adversarial(rng), None, None)
+    if kind == 9:
+        utc = rng.chance(50)
+        return (DEFAULT_SPEC + ("!UTC" if utc else ""), list(DEFAULT_PIECES), utc)
+    if kind == 10:
+        return (rng.choice(["SSSSSSS", "HH SSSSSSSS", "[SSSSSSS]!UTC", "%H:%M", "HH%%", "", "!UTC", "%Y!UTC"]), None, None)
+    # families of specs that differ only by what a careless key would drop (suffix, case, a trailing blank)
+    base = rng.choice(["HH", "Z", "zz HH", "x", "DD HH:mm ZZ", "hh A", "H", "h"])
+    utc = rng.chance(50)
+    out = []
+    for word in base.split(" "):
+        if out:
+            out.append(("lit", " "))
+        for part in word.replace(":", " : ").split(" "):
+            if part:
+                out.append(("tok", part) if part in TOKENS else ("lit", part))
+    if rng.chance(25):
+        out.append(("lit", " "))
+    spec, out, utc = finish_spec(out, utc)
+    return (spec, out, utc)
+
+
+def run_histories(ctx, rng, drv_lines, drv_cases):
+    """stream 3: histories of calls on the one process-wide memoiser of `_compile_format`"""
+    from loguru._datetime import datetime as ldt
+    nh = ctx.n(60, 2500) * (2 if getattr(ctx, "search_boost", False) else 1)
+    for hi in range(nh):
+        rh = rng.fork("hist%d" % hi)
+        npool = rh.choice([2, 3, 5, 8, 31, 32, 33, 34, 40, 64])
+        pool = [gen_pool_entry(rh) for _ in range(npool)]
+        zone = zspec = None
+        if rh.chance(30):
+            if ZONES and rh.chance(50):
+                zname = rh.choice(ZONES)
+                zone, zspec = ZONES_CACHE.setdefault(zname, zoneinfo.ZoneInfo(zname)), {"zoneinfo": zname}
+            else:
+                std = rh.choice([0, 3600, -18000, 34200, 19800, -12600]) * 10**6
+                delta = rh.choice([3600, 1800, -3600, 7200]) * 10**6
+                months = rh.choice([(4, 5, 6, 7, 8, 9, 10), (11, 12, 1, 2), (7,)])
+                zone, zspec = RuleTz(std, std + delta, months), {"rule": [std, std + delta, list(months)]}
+        META["case_start"] = len(JOURNAL)
+        clear_cache()
+        ncalls = rh.range(20, 90) if npool < 31 else rh.range(60, 140)
+        calls, toks, dts, gots = [], [], [], []
+        prev = None
+        failed = False
+        for ci in range(ncalls):
+            if npool >= 31 and ci < npool:
+                entry = pool[ci]                                   # fill the memoiser beyond its size first
+            else:
+                entry = pool[rh.below(min(3, npool))] if rh.chance(45) else rh.choice(pool)
+            spec, pieces, utc = entry
+            f = prev if (prev is not None and rh.chance(20)) else gen_instant(rh)
+            prev = f
+            if zone is not None:
+                y = min(max(f[0], 2), 9998)
+                d = min(f[2], 28)
+                dt = ldt(y, f[1], d, f[3], f[4], f[5], f[6], tzinfo=zone)
+                raw = [y, f[1], d, f[3], f[4], f[5], f[6], None, None]
+                fixed = (y, f[1], d, f[3], f[4], f[5], f[6], dt.utcoffset() // US, dt.tzname() or "")
+            else:
+                dt = mk_dt(f)
+                raw = list(f)
+                fixed = f[:8] + (model_name(f),)
+            got = impl_format(dt, spec)
+            calls.append([spec] + raw)
+            if got[0] == "skip":
+                ctx.stat("skipped_overflow")
+                continue
+            ctx.case(("hist", hi, ci, spec, fixed), nontrivial=True)
+            ctx.stat("history_calls")
+            toks.append(call_token(spec, fixed))
+            dts.append((spec, fixed, len(calls) - 1))
+            gots.append(got)
+            if pieces is not None:
+                ref = mk_dt(fixed)
+                try:
+                    d2 = ref.astimezone(pydt.timezone.utc) if utc else ref
+                except OverflowError:
+                    continue
+                exp = "".join(oracle_token(t, d2) if k == "tok" else t for k, t in pieces)
+                if got != ("ok", exp):
+                    exp_f1 = "".join(oracle_token(t, d2, f1_tz) if k == "tok" else t for k, t in pieces)
+                    key = "F1-negative-offset-with-seconds" if (got == ("ok", exp_f1) and f1_applies(fixed)
+                                                                and not utc) else None
+                    ctx.violation("call %d of a history of format() calls (%d distinct specs so far): format(%r, %r): "
+                                  "expected %r, observed %r" % (ci + 1, len({c[0] for c in calls}), dt.isoformat(), spec,
+                                                                exp, got[1]),
+                                  {"stream": "history", "calls": calls, "zone": zspec, "index": len(calls) - 1,
+                                   "expected": exp, "observed": got[1]}, key=key)
+                    if key is None:
+                        failed = True
+                        break
+        if toks:
+            drv_lines.append("hist 32 " + " ".join(toks))
+            drv_cases.append((dts, gots, calls, zspec))
+        ctx.stat("histories")
+        if failed:
+            break
+
+
+def run_handler_path(ctx, rng):
+    """stream 4: the place the property is observed at - a handler format '{time:<spec>}' with the record's time set
+    by a patcher - renders what format(dt, spec) renders (judged by the oracle)"""
+    from loguru import logger
+    n = ctx.n(40, 1500)
+    try:
+        logger.remove()
+    except ValueError:
+        pass
+    for i in range(n):
+        fields = gen_instant(rng)
+        pieces, utc = gen_structured(rng)
+        spec, pieces, utc = finish_spec(pieces, utc)
+        if spec == "" or "%" in spec or "SSSSSSS" in spec or not pieces or any(c in spec for c in "{}<>\\"):
+            continue
+        if rng.chance(15):
+            spec, pieces, utc = DEFAULT_SPEC, list(DEFAULT_PIECES), False
+        else:
+            pieces = recut(pieces)
+        dt = mk_dt(fields)
+        try:
+            d2 = dt.astimezone(pydt.timezone.utc) if utc else dt
+        except OverflowError:
+            continue
+        out = []
+        hid = logger.add(lambda m: out.append(str(m)), format="{time:" + spec + "}|{message}", colorize=False)
+        try:
+            logger.patch(lambda r: r.update(time=dt)).info("m")
+        except OverflowError:
+            continue
+        finally:
+            logger.remove(hid)
+        exp = "".join(oracle_token(t, d2) if k == "tok" else t for k, t in pieces) + "|m\n"
+        ctx.case(("handler", spec, fields), nontrivial=True)
+        ctx.stat("handler_path")
+        if out != [exp]:
+            exp_f1 = "".join(oracle_token(t, d2, f1_tz) if k == "tok" else t for k, t in pieces) + "|m\n"
+            key = "F1-negative-offset-with-seconds" if (out == [exp_f1] and f1_applies(fields) and not utc) else None
+            ctx.violation("handler format '{time:%s}|{message}' with record time %s: expected %r, observed %r"
+                          % (spec, dt.isoformat(), exp, out),
+                          {"stream": "handler", "spec": spec, "instant": list(fields), "expected": exp,
+                           "observed": out[0] if out else None}, key=key)
+            if key is None:
+                break
+
+
+def aware_now_at(naive, tzname):
+    """run loguru's aware_now() with the wall clock reading `naive` in the process time zone `tzname`"""
+    import os
+    import time
+    import loguru._datetime as ld
+
+    class Frozen(ld.datetime_):
+        @classmethod
+        def now(cls, tz=None):
+            return naive
+
+    old_tz, old_cls = os.environ.get("TZ"), ld.datetime_
+    os.environ["TZ"] = tzname
+    time.tzset()
+    ld.datetime_ = Frozen
+    try:
+        return ld.aware_now()
+    finally:
+        ld.datetime_ = old_cls
+        if old_tz is None:
+            os.environ.pop("TZ", None)
+        else:
+            os.environ["TZ"] = old_tz
+        time.tzset()
+
+
+def run_aware_now(ctx, rng):
+    """stream 5: aware_now() (the record's time) carries the wall-clock fields it read and the UTC offset / zone name
+    the tz database gives for that local time in the process zone"""
+    import loguru._datetime as ld
+    if not ZONES or not hasattr(ld, "aware_now") or not hasattr(ld, "datetime_"):
+        ctx.stat("aware_now_skipped")
+        return
+    n = ctx.n(120, 6000)
+    for i in range(n):
+        zname = rng.choice(ZONES + ["UTC"])
+        z = ZONES_CACHE.setdefault(zname, zoneinfo.ZoneInfo(zname))
+        y = rng.choice([1971, 1985, 1999, 2011, 2024, 2037, rng.range(1971, 2037)])
+        naive = pydt.datetime(y, rng.range(1, 12), rng.range(1, 28), rng.range(0, 23), rng.range(0, 59),
+                              rng.range(0, 59), rng.choice(USECS))
+        # local times inside a gap or a fold have no single answer: keep two hours' distance from every switch
+        offs = {(naive + pydt.timedelta(hours=k)).replace(tzinfo=z).utcoffset() for k in (-3, -2, -1, 0, 1, 2, 3)}
+        if len(offs) != 1:
+            ctx.stat("aware_now_near_switch")
+            continue
+        try:
+            got = aware_now_at(naive, zname)
+        except (OverflowError, OSError, ValueError) as e:
+            ctx.stat("aware_now_platform_error:" + type(e).__name__)
+            continue
+        want = naive.replace(tzinfo=z)
+        ctx.case(("aware_now", zname, naive.isoformat()), nontrivial=True)
+        ctx.stat("aware_now")
+        ok = (isinstance(got, ld.datetime) and got.replace(tzinfo=None) == naive and got.utcoffset() == want.utcoffset()
+              and got.tzname() == want.tzname())
+        if not ok:
+            ctx.violation("aware_now() with the clock at %s in zone %s gives %r (offset %s, name %r); the instant is %s "
+                          "(offset %s, name %r)" % (naive.isoformat(), zname, got, got.utcoffset(), got.tzname(),
+                                                     want.isoformat(), want.utcoffset(), want.tzname()),
+                          {"stream": "aware_now", "zone": zname, "naive": naive.isoformat(),
+                           "expected": want.isoformat() + " " + str(want.tzname()),
+                           "observed": got.isoformat() + " " + str(got.tzname())})
+            break
+
+
+
+def watch_first_violation(ctx):
+    """remember how many distinct specs the process had formatted when the first violation was seen"""
+    orig = ctx.violation
+
+    def violation(what, replay, key=None, kind="oracle"):
+        r = orig(what, replay, key=key, kind=kind)
+        if r and "journal_len" not in META:
+            own = replay.get("stream") in ("history", "zones")          # these replays re-run their own case
+            META["journal_len"] = META.get("case_start", 0) if own else max(0, len(JOURNAL) - 1)
+        return r
+    ctx.violation = violation
+
+
+def confirm_replay(ctx):
+    """A replay must reproduce in a FRESH process.  A failure that needs what earlier calls of this process left behind
+    (a memoiser keyed by less than the spec, ...) does not: it then gets the journal of the distinct specs formatted
+    before it (`prior_specs`, replayed first)."""
+    import json
+    import subprocess
+    import tempfile
+    if not ctx.violations or META.get("confirmed"):
+        return
+    META["confirmed"] = True
+    v = ctx.violations[0]
+    if v["replay"].get("stream") == "aware_now":
+        return
+
+    def fresh():
+        fd, path = tempfile.mkstemp(suffix=".json", prefix="c11replay")
+        try:
+            with os.fdopen(fd, "w") as f:
+                json.dump({"replay": v["replay"]}, f)
+            p = subprocess.run([os.path.join(core.VERIF, "check"), PROP, "--replay", path], stdout=subprocess.PIPE,
+                               stderr=subprocess.STDOUT, timeout=300, env=dict(os.environ, C11_REPLAY_NO_MODEL="1"))
+            return p.returncode == 1
+        except (OSError, subprocess.TimeoutExpired):
+            return True                       # cannot tell: leave the replay as it is
+        finally:
+            os.unlink(path)
+    if fresh():
+        return
+    zone_ids = {}
+    prior = [ser_call(sp, d, zone_ids) if d is not None else None
+             for sp, d in JOURNAL[:META.get("journal_len", len(JOURNAL))]]
+    v["replay"]["prior_calls"] = prior
+    ok = fresh()
+    ctx.note("first violation depends on state left by earlier calls: replay carries the %d prior calls (%s)"
+             % (len(prior), "reproduces in a fresh process" if ok else "still not reproduced in a fresh process"))
+    if ok:
+        v["what"] += "  [after the %d format() calls this process had made before - state surviving between calls]" % len(prior)
+
+
 def run(ctx):
     rng = ctx.rng
+    watch_first_violation(ctx)
     drv = core.Driver(DRIVER)
     boost = 5 if getattr(ctx, "search_boost", False) else 1
 
@@ -306,15 +677,24 @@ def run(ctx):
             ctx.violation("corpus case %r at %r: expected %r, observed %r" % (spec, fields, exp, got),
                           {"stream": "oracle", "spec": spec, "instant": list(fields), "expected": exp, "observed": got[1]})
 
+    # ---- stream 3: histories on the process-wide memoiser (first: the process has formatted little so far, a failure
+    # that needs earlier state gets a short journal); 4: the handler path; 5: aware_now()
+    hist_lines, hist_cases = [], []
+    run_histories(ctx, rng.fork("histories"), hist_lines, hist_cases)
+    run_handler_path(ctx, rng.fork("handler"))
+    run_aware_now(ctx, rng.fork("aware_now"))
+
     # ---- stream 1: structured specs judged by the independent oracle (and sent to the model too)
     n1 = ctx.n(4000, 150000) * boost
     lines, cases = [], []
     for i in range(n1):
         fields = gen_instant(rng)
         pieces, utc = gen_structured(rng)
-        spec = "".join(t if k != "esc" else "[" + t + "]" for k, t in pieces) + ("!UTC" if utc else "")
-        if spec == "" or "%" in spec or "SSSSSSS" in spec or spec == "YYYY-MM-DD HH:mm:ss.SSS Z":
+        spec, pieces, utc = finish_spec(pieces, utc)
+        if spec == "" or "%" in spec or "SSSSSSS" in spec or spec == "YYYY-MM-DD HH:mm:ss.SSS Z" or not pieces:
             continue
+        if any(k == "lit" and "UTC" in t.upper() for k, t in pieces):
+            ctx.stat("suffix_lookalike_in_body")
         dt = mk_dt(fields)
         got = impl_format(dt, spec)
         if got[0] == "skip":
@@ -356,6 +736,10 @@ def run(ctx):
         delta = rz.choice([3600, 3600, 1800, -3600, 7200]) * 10**6
         months = rz.choice([(4, 5, 6, 7, 8, 9, 10), (11, 12, 1, 2), (7,), (1, 2, 3, 4, 5, 6)])
         zone = RuleTz(std, std + delta, months)
+        zname = None
+        if ZONES and rz.chance(35):
+            zname = rz.choice(ZONES)
+            zone = ZONES_CACHE.setdefault(zname, zoneinfo.ZoneInfo(zname))   # ONE object per zone for the whole run
         kind = rz.below(4)
         if kind == 0:
             pieces, utc = list(DEFAULT_PIECES), False
@@ -365,18 +749,22 @@ def run(ctx):
             pieces, utc = gen_structured(rz)
             if not any(t in ("Z", "ZZ", "zz", "x", "X", "HH", "H") for k, t in pieces if k == "tok"):
                 pieces = pieces + [("lit", " "), ("tok", rz.choice(["Z", "ZZ", "zz", "x"]))]
-        spec = "".join(t if k != "esc" else "[" + t + "]" for k, t in pieces) + ("!UTC" if utc else "")
-        if "%" in spec or "SSSSSSS" in spec:
+        spec, pieces, utc = finish_spec(pieces, utc)
+        if "%" in spec or "SSSSSSS" in spec or not pieces:
             continue
         cut = recut(pieces) if kind >= 2 else pieces
+        META["case_start"] = len(JOURNAL)
         history = []
         for ci in range(rz.range(2, 5)):
             f = gen_instant(rz)
             y = min(max(f[0], 2), 9998)
             mo = rz.choice(sorted(months)) if ci % 2 == 0 else rz.choice([m for m in range(1, 13) if m not in months])
+            if zname is not None:                   # real zones: local mean time before ~1900 (offsets with seconds),
+                y = rz.choice([1850, 1880, 1915, 1942, 1971, 1999, 2011, 2024, 2037, 2100, y])  # DST on both sides
+                mo = rz.choice([1, 7, 3, 10, 11, 4])
             d = min(f[2], 28)
-            dt = ldt(y, mo, d, f[3], f[4], f[5], f[6], tzinfo=zone)
-            history.append([y, mo, d, f[3], f[4], f[5], f[6]])
+            dt = ldt(y, mo, d, f[3], f[4], f[5], f[6], tzinfo=zone, fold=rz.below(2) if zname else 0)
+            history.append([y, mo, d, f[3], f[4], f[5], f[6], dt.fold])
             got = impl_format(dt, spec)
             if got[0] == "skip":
                 continue
@@ -387,18 +775,19 @@ def run(ctx):
             exp = "".join(oracle_token(t, d2) if k == "tok" else t for k, t in cut)
             ctx.case(("zone", spec, fixed, ci), nontrivial=True)
             ctx.stat("zones:default" if kind < 2 else "zones:structured")
+            ctx.stat("zones:zoneinfo" if zname else "zones:rule")
             if got != ("ok", exp):
                 exp_f1 = "".join(oracle_token(t, d2, f1_tz) if k == "tok" else t for k, t in cut)
                 key = "F1-negative-offset-with-seconds" if got == ("ok", exp_f1) and f1_applies(fixed) and not utc else None
                 ctx.violation("format(%r, %r) with a date-dependent zone (call %d on the same tzinfo object): expected %r, "
                               "observed %r" % (dt.isoformat(), spec, ci + 1, exp, got[1]),
                               {"stream": "zones", "case": zi, "spec": spec, "instant": list(fixed), "call": ci,
-                               "zone": [std, std + delta, list(months)], "history": history,
+                               "zone": [std, std + delta, list(months)], "zoneinfo": zname, "history": history,
                                "expected": exp, "observed": got[1]}, key=key)
                 break
 
     # ---- stream 2: adversarial strings, implementation vs model
-    n2 = ctx.n(4000, 150000) * boost
+    n2 = ctx.n(4000, 150000) * min(boost, 2)
     for i in range(n2):
         fields = gen_instant(rng)
         spec = gen_adversarial(rng)
@@ -468,7 +857,31 @@ def run(ctx):
         cal_lines.append("civil %d" % z)
         cal_exp.append("%d %d %d %d %d %d" % (d.year, d.month, d.day, d.weekday(), d.timetuple().tm_yday, z))
     ctx.exhaustive = not ctx.quick
-    out = drv.run(lines + cal_lines)
+    confirm_replay(ctx)
+    out_all = drv.run(lines + cal_lines + hist_lines)
+    out = out_all[:len(lines) + len(cal_lines)]
+    for (dts, gots, calls, zspec), o in zip(hist_cases, out_all[len(lines) + len(cal_lines):]):
+        toks = o.split(";")
+        if len(toks) != len(dts):
+            ctx.broke("correspondence Datetime.runHistory", "history line answered %r" % (o[:200],))
+            continue
+        for (spec, fixed, idx), got, tok in zip(dts, gots, toks):
+            m = resolve_hist(tok, mk_dt(fixed))
+            if m[0] == "skip":
+                continue
+            ctx.traces_validated += 1
+            if m != got:
+                ctx.stat("disagreements")
+                ctx.broke("correspondence Datetime.runHistory",
+                          "call %d spec=%r instant=%r impl=%r model=%r" % (idx, spec, fixed, got, m))
+                ctx.violation("call %d of a history of format() calls: implementation and model (history_lru: every call "
+                              "renders formatDt of its own spec and instant) disagree on format(%r, %r): impl %r, model %r"
+                              % (idx + 1, mk_dt(fixed).isoformat(), spec, got, m),
+                              {"stream": "history", "calls": calls[:idx + 1], "zone": zspec, "index": idx,
+                               "expected": m[1], "observed": got[1]}, kind="correspondence")
+                break
+        if ctx.stats.get("disagreements", 0) > 20:
+            break
     for (spec, fields, got), o in zip(cases, out):
         dt = mk_dt(fields)
         m = resolve_model(o, dt)
@@ -495,6 +908,7 @@ def run(ctx):
             if bad < 3:
                 ctx.broke("correspondence Py.Calendar", "expected %s got %s" % (e, o))
     ctx.stat("calendar_days_checked", len(cal_exp))
+    confirm_replay(ctx)
     if ctx.broken:
         # deduplicate
         seen, uniq = set(), []
@@ -507,25 +921,77 @@ def run(ctx):
 
 def replay(ctx, rep):
     r = rep["replay"]
+    if r.get("prior_calls"):
+        zones = {}
+        for c in r["prior_calls"]:            # what the process had formatted before (state surviving between calls)
+            if c is None:
+                clear_cache()
+                continue
+            sp, d = deser_call(c, zones)
+            impl_format(d, sp)
+        print("(%d prior calls made first)" % len(r["prior_calls"]))
     if r.get("stream") == "zones":
         from loguru._datetime import datetime as ldt
-        zone = RuleTz(r["zone"][0], r["zone"][1], r["zone"][2])
+        zone = zoneinfo.ZoneInfo(r["zoneinfo"]) if r.get("zoneinfo") else RuleTz(r["zone"][0], r["zone"][1], r["zone"][2])
         got = None
         for h in r["history"]:                      # the same tzinfo object, call after call
-            dt = ldt(*h, tzinfo=zone)
+            dt = ldt(*h[:7], tzinfo=zone, fold=(h[7] if len(h) > 7 else 0))
             got = impl_format(dt, r["spec"])
             print("format(%s, %r) -> %r" % (dt.isoformat(), r["spec"], got))
         print("expected for the last call:", r["expected"])
         bad = got != ("ok", r["expected"])
         print("REPRODUCED" if bad else "not reproduced")
         return 1 if bad else 0
+    if r.get("stream") == "history":
+        from loguru._datetime import datetime as ldt
+        zs = r.get("zone")
+        zone = None
+        if zs:
+            zone = zoneinfo.ZoneInfo(zs["zoneinfo"]) if "zoneinfo" in zs else RuleTz(*zs["rule"])
+        clear_cache()
+        got = None
+        for c in r["calls"][:r["index"] + 1]:
+            dt = ldt(*c[1:8], tzinfo=zone) if zone is not None else mk_dt(tuple(c[1:]))
+            got = impl_format(dt, c[0])
+        print("history of %d calls (%d distinct specs); last: format(%s, %r) -> %r"
+              % (r["index"] + 1, len({c[0] for c in r["calls"][:r["index"] + 1]}), dt.isoformat(), c[0], got))
+        print("expected for the last call:", r["expected"])
+        bad = got != ("ok", r["expected"])
+        print("REPRODUCED" if bad else "not reproduced")
+        return 1 if bad else 0
+    if r.get("stream") == "handler":
+        from loguru import logger
+        try:
+            logger.remove()
+        except ValueError:
+            pass
+        dt = mk_dt(tuple(r["instant"]))
+        out = []
+        hid = logger.add(lambda m: out.append(str(m)), format="{time:" + r["spec"] + "}|{message}", colorize=False)
+        logger.patch(lambda rec: rec.update(time=dt)).info("m")
+        logger.remove(hid)
+        print("handler format {time:%s}|{message} at %s -> %r; expected %r" % (r["spec"], dt.isoformat(), out, r["expected"]))
+        bad = out != [r["expected"]]
+        print("REPRODUCED" if bad else "not reproduced")
+        return 1 if bad else 0
+    if r.get("stream") == "aware_now":
+        got = aware_now_at(pydt.datetime.fromisoformat(r["naive"]), r["zone"])
+        obs = got.isoformat() + " " + str(got.tzname())
+        print("aware_now() at %s in %s -> %s; expected %s" % (r["naive"], r["zone"], obs, r["expected"]))
+        bad = obs != r["expected"]
+        print("REPRODUCED" if bad else "not reproduced")
+        return 1 if bad else 0
     fields = tuple(r["instant"])
     dt = mk_dt(fields)
     got = impl_format(dt, r["spec"])
-    out = core.Driver(DRIVER).run([line_of(r["spec"], fields)])[0]
     print("spec=%r instant=%s" % (r["spec"], dt.isoformat()))
     print("implementation:", got)
-    print("model:         ", resolve_model(out, dt))
+    if not os.environ.get("C11_REPLAY_NO_MODEL"):
+        try:
+            out = core.Driver(DRIVER).run([line_of(r["spec"], fields)])[0]
+            print("model:         ", resolve_model(out, dt))
+        except core.DriverError as e:
+            print("model:          (driver does not run: %s)" % str(e).splitlines()[0])
     print("expected:      ", r.get("expected"))
     bad = got != ("ok", r.get("expected"))
     print("REPRODUCED" if bad else "not reproduced")
